@@ -42,7 +42,7 @@ Section Reopen2.
   Theorem bp_reopened_pinv : PInv (reopened_gen fx s).
   Proof.
     pose proof (bp_r_bl fx s) as Hbl.
-    constructor; rewrite ?Hbl; cbn [lroot linodes lnext].
+    constructor; rewrite Hbl; cbn [lroot linodes lnext].
     - intros st. unfold bp_stcount. rewrite (bp_ltotal_lmap_same (lw_st st)); [apply (pi_st_le s HP)|intros [? ? ?|? ? ?]; reflexivity].
     - intros st Hst. unfold bp_stcount. rewrite (bp_ltotal_lmap_same (lw_st st)); [|intros [? ? ?|? ? ?]; reflexivity].
       apply (pi_st_fresh s HP). unfold bp_fake in Hst. lia.
